@@ -12,7 +12,7 @@ fn body_for(property: &'static str) -> impl Fn(&History, &mut CaseCtx) -> PropRe
         Ok(()) => Ok(()),
         Err(f) => {
             let owner = model::owner_of(&f.key);
-            if owner == property || owner == "*" {
+            if owner == property || owner == "*" || model::also_owned_by(&f.key, property) {
                 Err(f)
             } else {
                 ctx.label("ended_early_by_other_oracle");
